@@ -1,7 +1,12 @@
 /-
-  C06 / C07 — facts about the concrete environment (Model/ScriptEnvReal.lean): the legacy signature
-  hash does not see a leading OP_CODESEPARATOR operation of the script code, and the model's
-  `FindAndDelete` (Model/ScriptEval) is the one of C03's model (Model/Sighash).
+  C06 / C07 — facts about the concrete environment (Model/ScriptEnvReal.lean):
+  * the legacy signature hash does not see a leading OP_CODESEPARATOR operation of the script code
+    (`realEnv_codesepInsensitive`, for every Python int index);
+  * every outcome of `RawSignatureHash` for a transaction in wire range, including negative indices
+    (`neg_outcome`, `sigHash_real_cases`): CScriptInvalidError for script codes that do not tokenise,
+    IndexError exactly for `inIdx < −|vin|` or SINGLE with `inIdx < −|vout|`, a digest otherwise —
+    hence `sigHashOK_real`, `raises_real_iff`, `no_raises_real`;
+  * the model's `FindAndDelete` (Model/ScriptEval) is the one of C03's model (Model/Sighash).
 -/
 import BtcVerif.Props.C03
 import BtcVerif.Model.ScriptEnvReal
@@ -45,9 +50,232 @@ theorem rawSignatureHash_codesep (sc : Bytes) (tx : Tx) (i : Nat) (ht : Int) :
   unfold Model.Sighash.rawSignatureHash
   rw [sighash_fad_codesep]
 
-theorem realEnv_codesepInsensitive (tx : Tx) (inIdx : Nat) : CodesepInsensitive (realEnv tx inIdx) := by
+theorem rawSignatureHashNeg_codesep (sc : Bytes) (tx : Tx) (i : Int) (ht : Int) :
+    rawSignatureHashNeg ((0xab : UInt8) :: sc) tx i ht = rawSignatureHashNeg sc tx i ht := by
+  unfold rawSignatureHashNeg
+  rw [sighash_fad_codesep]
+
+theorem rawSignatureHashInt_codesep (sc : Bytes) (tx : Tx) (i : Int) (ht : Int) :
+    rawSignatureHashInt ((0xab : UInt8) :: sc) tx i ht = rawSignatureHashInt sc tx i ht := by
+  unfold rawSignatureHashInt
+  rw [rawSignatureHash_codesep, rawSignatureHashNeg_codesep]
+
+theorem realEnv_codesepInsensitive (tx : Tx) (inIdx : Int) : CodesepInsensitive (realEnv tx inIdx) := by
   intro body pk sc ht
-  simp only [realEnv, realSigCheck, rawSignatureHash_codesep]
+  simp only [realEnv, realCtx, Ctx.env, rawSignatureHashInt_codesep]
+
+/-! ### what `RawSignatureHash` does for a negative index -/
+
+/-- an input of the scratch copy that serialises -/
+def InOK (i : TxIn) : Prop :=
+  Spec.Wire.WFOutPoint i.prevout ∧ i.scriptSig.length < 2 ^ 64 ∧ i.nSequence < 2 ^ 32
+
+theorem inOK_ser {i : TxIn} (h : InOK i) : Model.Wire.serTxIn i = .ok (Spec.Wire.txIn i) :=
+  SighashProofs.serTxIn_ok h.1 h.2.1 h.2.2
+
+/-- the last two statements of `RawSignatureHash` on a scratch copy whose parts serialise -/
+theorem neg_tail (tx : Tx) (hwf : Spec.Sighash.FieldsWF tx) (vin3 : List TxIn) (vout2 : List TxOut) (ht : Nat)
+    (hht : ht < 256) (h3 : vin3.length < 2 ^ 64) (h4 : ∀ x ∈ vin3, InOK x)
+    (h5 : vout2.length < 2 ^ 64) (h6 : ∀ x ∈ vout2, x ∈ tx.vout) :
+    ∃ d, (do
+      let s ← Model.Wire.serTx { tx with vin := vin3, vout := vout2, wit := [] }
+      let h ← Model.Wire.packI 4 (ht : Int)
+      pure (Crypto.hash256 (s ++ h), false) : Res (Bytes × Bool)) = .ok (d, false) := by
+  obtain ⟨hv1, hv2, _, _, _, hout, hl⟩ := hwf
+  have hs := SighashProofs.scratch_ser tx vin3 vout2 hv1 hv2 hl h3 (fun x hx => inOK_ser (h4 x hx)) h5
+    (fun x hx => by
+      obtain ⟨a, b, c⟩ := hout x (h6 x hx)
+      exact SighashProofs.serTxOut_ok a b c)
+  rw [hs, SighashProofs.packI_ht (show ht < 2 ^ 31 by omega)]
+  exact ⟨_, rfl⟩
+
+theorem pyGetNat_ok {α} (l : List α) (k : Nat) (h : k < l.length) : Model.Sighash.pyGetNat l k = .ok l[k] := by
+  simp [Model.Sighash.pyGetNat, List.getElem?_eq_getElem h]
+
+/-- `RawSignatureHash(script, txTo, inIdx, hashtype)` with `inIdx < 0`, a transaction in wire range
+    and a hash-type byte: CScriptInvalidError when the script code does not tokenise; otherwise
+    IndexError exactly when `inIdx < −|vin|`, or SIGHASH_SINGLE and `inIdx < −|vout|` (D7); otherwise
+    a digest and no error indication -/
+theorem neg_outcome (script : Bytes) (tx : Tx) (inIdx : Int) (ht : Nat) (hwf : Spec.Sighash.FieldsWF tx)
+    (hsc : script.length < 2 ^ 64) (hht : ht < 256) :
+    (¬ Spec.Sighash.parses script → rawSignatureHashNeg script tx inIdx (ht : Int) = .error .invalidscript) ∧
+    (Spec.Sighash.parses script →
+      ((tx.vin.length : Int) < -inIdx ∨ ((ht : Int) % 32 = 3 ∧ (tx.vout.length : Int) < -inIdx)) →
+      rawSignatureHashNeg script tx inIdx (ht : Int) = .error indexError) ∧
+    (Spec.Sighash.parses script → inIdx < 0 →
+      ¬ ((tx.vin.length : Int) < -inIdx ∨ ((ht : Int) % 32 = 3 ∧ (tx.vout.length : Int) < -inIdx)) →
+      ∃ d, rawSignatureHashNeg script tx inIdx (ht : Int) = .ok (d, false)) := by
+  have hft := SighashProofs.fromTx_ok tx hwf
+  refine ⟨?_, ?_, ?_⟩
+  · intro hp
+    unfold rawSignatureHashNeg
+    rw [hft, C03.findAndDelete_invalid script _ hp]
+    rfl
+  · intro hp hor
+    unfold rawSignatureHashNeg
+    rw [hft, C03.findAndDelete_codesep script hp]
+    simp only [SighashProofs.bind_ok, List.length_map]
+    by_cases h1 : (tx.vin.length : Int) < -inIdx
+    · rw [if_pos h1]
+    · rw [if_neg h1]
+      rcases hor with h | ⟨h3, h4⟩
+      · exact absurd h h1
+      · have hk : ((tx.vin.length : Int) + inIdx).toNat < (tx.vin.map (fun i => { i with scriptSig := [] })).length := by
+          rw [List.length_map]; omega
+        rw [pyGetNat_ok _ _ hk]
+        simp only [SighashProofs.bind_ok]
+        rw [if_neg (by omega), if_pos h3, if_pos h4]
+        rfl
+  · intro hp hneg hor
+    have h1 : ¬ (tx.vin.length : Int) < -inIdx := fun h => hor (Or.inl h)
+    unfold rawSignatureHashNeg
+    rw [hft, C03.findAndDelete_codesep script hp]
+    simp only [SighashProofs.bind_ok, List.length_map]
+    rw [if_neg h1]
+    have hk : ((tx.vin.length : Int) + inIdx).toNat < (tx.vin.map (fun i => { i with scriptSig := [] })).length := by
+      rw [List.length_map]; omega
+    rw [pyGetNat_ok _ _ hk]
+    obtain ⟨_, _, hvl, hol, hin, _, _⟩ := id hwf
+    have hvin0 : ∀ x ∈ tx.vin.map (fun i => ({ i with scriptSig := [] } : TxIn)), InOK x := by
+      intro x hx; rw [List.mem_map] at hx; obtain ⟨y, hy, rfl⟩ := hx
+      exact ⟨(hin y hy).1, by simp, (hin y hy).2⟩
+    have hnl := SighashProofs.noSep_length_le script.length script (le_refl _)
+    have hl0 : (tx.vin.map (fun i => ({ i with scriptSig := [] } : TxIn))).length = tx.vin.length := List.length_map _
+    generalize tx.vin.map (fun i => ({ i with scriptSig := [] } : TxIn)) = vin0 at hk hvin0 hl0 ⊢
+    generalize ((tx.vin.length : Int) + inIdx).toNat = k at hk ⊢
+    have hv1 : ∀ x ∈ vin0.set k { vin0[k] with scriptSig := Spec.Sighash.scriptCodeNoSep script }, InOK x := by
+      intro x hx
+      rcases List.mem_or_eq_of_mem_set hx with h | h
+      · exact hvin0 x h
+      · subst h
+        exact ⟨(hvin0 _ (List.getElem_mem hk)).1, by dsimp only; omega, (hvin0 _ (List.getElem_mem hk)).2.2⟩
+    have hl1 : (vin0.set k { vin0[k] with scriptSig := Spec.Sighash.scriptCodeNoSep script }).length = vin0.length :=
+      List.length_set
+    simp only [SighashProofs.bind_ok]
+    generalize vin0.set k { vin0[k] with scriptSig := Spec.Sighash.scriptCodeNoSep script } = vin1 at hv1 hl1 ⊢
+    have hk1 : k < vin1.length := by omega
+    have hz : ∀ x ∈ vin1.map (fun i => ({ i with nSequence := 0 } : TxIn)), InOK x := by
+      intro x hx; rw [List.mem_map] at hx; obtain ⟨y, hy, rfl⟩ := hx
+      exact ⟨(hv1 y hy).1, (hv1 y hy).2.1, by simp⟩
+    have hlz : (vin1.map (fun i => ({ i with nSequence := 0 } : TxIn))).length = vin1.length := List.length_map _
+    generalize vin1.map (fun i => ({ i with nSequence := 0 } : TxIn)) = vz at hz hlz ⊢
+    have hkz : k < vz.length := by omega
+    by_cases hn : (ht : Int) % 32 = 2
+    · simp only [if_pos hn]
+      by_cases ha : (ht : Int) / 128 % 2 ≠ 0
+      · simp only [if_pos ha, pyGetNat_ok _ _ hkz, SighashProofs.bind_ok, SighashProofs.pure_ok]
+        exact neg_tail tx hwf [vz[k]] [] ht hht (by simp) (by simp; exact hz _ (List.getElem_mem hkz)) (by simp) (by simp)
+      · simp only [if_neg ha, SighashProofs.bind_ok, SighashProofs.pure_ok]
+        exact neg_tail tx hwf vz [] ht hht (by omega) hz (by simp) (by simp)
+    · simp only [if_neg hn]
+      by_cases hsg : (ht : Int) % 32 = 3
+      · have h4 : ¬ (tx.vout.length : Int) < -inIdx := fun h => hor (Or.inr ⟨hsg, h⟩)
+        have hko : ((tx.vout.length : Int) + inIdx).toNat < tx.vout.length := by omega
+        simp only [if_pos hsg, if_neg h4, pyGetNat_ok _ _ hko, SighashProofs.bind_ok]
+        by_cases ha : (ht : Int) / 128 % 2 ≠ 0
+        · simp only [if_pos ha, pyGetNat_ok _ _ hkz, SighashProofs.bind_ok, SighashProofs.pure_ok]
+          exact neg_tail tx hwf [vz[k]] [_] ht hht (by simp) (by simp; exact hz _ (List.getElem_mem hkz)) (by simp)
+            (by simp)
+        · simp only [if_neg ha, SighashProofs.bind_ok, SighashProofs.pure_ok]
+          exact neg_tail tx hwf vz [_] ht hht (by omega) hz (by simp) (by simp)
+      · simp only [if_neg hsg]
+        by_cases ha : (ht : Int) / 128 % 2 ≠ 0
+        · simp only [if_pos ha, pyGetNat_ok _ _ hk1, SighashProofs.bind_ok, SighashProofs.pure_ok]
+          exact neg_tail tx hwf [vin1[k]] tx.vout ht hht (by simp) (by simp; exact hv1 _ (List.getElem_mem hk1)) hol
+            (fun x hx => hx)
+        · simp only [if_neg ha, SighashProofs.bind_ok, SighashProofs.pure_ok]
+          exact neg_tail tx hwf vin1 tx.vout ht hht (by omega) hv1 hol (fun x hx => hx)
+
+/-! ### the outcomes of `Ctx.sigHash` of the concrete context -/
+
+/-- the hash types for which `RawSignatureHash` raises IndexError at a negative index -/
+def BadNeg (tx : Tx) (inIdx : Int) (ht : Nat) : Prop :=
+  (tx.vin.length : Int) < -inIdx ∨ ((ht : Int) % 32 = 3 ∧ (tx.vout.length : Int) < -inIdx)
+
+/-- indices at which `RawSignatureHash` raises nothing but CScriptInvalidError, whatever the hash type:
+    the non-negative ones and the negative ones that wrap around both `vin` and `vout` -/
+def IdxOK (tx : Tx) (inIdx : Int) : Prop :=
+  0 ≤ inIdx ∨ (-(tx.vin.length : Int) ≤ inIdx ∧ -(tx.vout.length : Int) ≤ inIdx)
+
+theorem sigHash_real (tx : Tx) (inIdx : Int) (script : Bytes) (ht : Nat) :
+    (realCtx tx inIdx).sigHash script ht = (rawSignatureHashInt script tx inIdx (ht : Int)).map (·.1) := rfl
+
+/-- all outcomes of the concrete `sigHash` for a transaction in wire range -/
+theorem sigHash_real_cases (tx : Tx) (inIdx : Int) (script : Bytes) (ht : Nat) (hwf : Spec.Sighash.FieldsWF tx)
+    (hsc : script.length ≤ MAX_SCRIPT_SIZE) (hht : ht < 256) :
+    (Spec.Sighash.parses script → (0 ≤ inIdx ∨ ¬ BadNeg tx inIdx ht) →
+      ∃ d, (realCtx tx inIdx).sigHash script ht = .ok d) ∧
+    (Spec.Sighash.parses script → inIdx < 0 → BadNeg tx inIdx ht →
+      (realCtx tx inIdx).sigHash script ht = .error indexError) ∧
+    (¬ Spec.Sighash.parses script →
+      (∃ d, (realCtx tx inIdx).sigHash script ht = .ok d) ∨
+      (realCtx tx inIdx).sigHash script ht = .error .invalidscript) := by
+  have hsc' : script.length < 2 ^ 64 := by unfold MAX_SCRIPT_SIZE at hsc; omega
+  obtain ⟨n1, n2, n3⟩ := neg_outcome script tx inIdx ht hwf hsc' hht
+  rw [sigHash_real]
+  unfold rawSignatureHashInt
+  refine ⟨?_, ?_, ?_⟩
+  · intro hp hor
+    by_cases h0 : 0 ≤ inIdx
+    · rw [if_pos h0, C03.raw_eq_spec script tx inIdx.toNat ht hp hsc' hwf hht]
+      exact ⟨_, rfl⟩
+    · rw [if_neg h0]
+      obtain ⟨d, hd⟩ := n3 hp (by omega) (by rcases hor with h | h; exact absurd h h0; exact h)
+      rw [hd]; exact ⟨_, rfl⟩
+  · intro hp hneg hbad
+    rw [if_neg (by omega), n2 hp hbad]; rfl
+  · intro hp
+    by_cases h0 : 0 ≤ inIdx
+    · rw [if_pos h0]
+      unfold Model.Sighash.rawSignatureHash
+      by_cases hge : inIdx.toNat ≥ tx.vin.length
+      · rw [if_pos hge]; left; exact ⟨_, rfl⟩
+      · rw [if_neg hge, SighashProofs.fromTx_ok tx hwf, C03.findAndDelete_invalid script _ hp]
+        right; rfl
+    · rw [if_neg h0, n1 hp]; right; rfl
+
+/-- hypothesis `SigHashOK` of `C06.eval_equiv` / `verify_equiv`, discharged -/
+theorem sigHashOK_real (tx : Tx) (inIdx : Int) (hwf : Spec.Sighash.FieldsWF tx) (hidx : IdxOK tx inIdx) :
+    SigHashOK (realCtx tx inIdx) := by
+  intro script ht hlen hht hp
+  refine (sigHash_real_cases tx inIdx script ht hwf hlen hht).1 ((C03.parses_iff script).mp hp) ?_
+  rcases hidx with h | ⟨h1, h2⟩
+  · left; exact h
+  · right; unfold BadNeg; omega
+
+/-- which exceptions of `RawSignatureHash` other than CScriptInvalidError reach the interpreter: for a
+    transaction in wire range only IndexError, only at a negative index that does not wrap (D7) -/
+theorem raises_real_iff (tx : Tx) (inIdx : Int) (hwf : Spec.Sighash.FieldsWF tx) (cls : String) :
+    (realCtx tx inIdx).Raises cls ↔
+      (cls = "IndexError" ∧ inIdx < 0 ∧ (inIdx < -(tx.vin.length : Int) ∨ inIdx < -(tx.vout.length : Int))) := by
+  constructor
+  · rintro ⟨script, ht, x, hlen, hht, hx, hne, rfl⟩
+    obtain ⟨c1, c2, c3⟩ := sigHash_real_cases tx inIdx script ht hwf hlen hht
+    by_cases hp : Spec.Sighash.parses script
+    · by_cases hok : 0 ≤ inIdx ∨ ¬ BadNeg tx inIdx ht
+      · obtain ⟨d, hd⟩ := c1 hp hok
+        rw [hd] at hx; cases hx
+      · have hneg : inIdx < 0 := by omega
+        have hbad : BadNeg tx inIdx ht := by
+          by_contra h; exact hok (Or.inr h)
+        rw [c2 hp hneg hbad] at hx
+        cases hx
+        refine ⟨rfl, hneg, ?_⟩
+        unfold BadNeg at hbad; omega
+    · rcases c3 hp with ⟨d, hd⟩ | h
+      · rw [hd] at hx; cases hx
+      · rw [h] at hx; cases hx; exact absurd rfl hne
+  · rintro ⟨rfl, hneg, hor⟩
+    have hp : Spec.Sighash.parses [] := (C03.parses_iff []).mp (by rw [rawIter, rawIterFrom_none (by rfl)])
+    refine ⟨[], 3, indexError, by simp, by omega,
+      (sigHash_real_cases tx inIdx [] 3 hwf (by simp) (by omega)).2.1 hp hneg ?_, by simp [indexError], rfl⟩
+    unfold BadNeg; omega
+
+theorem no_raises_real (tx : Tx) (inIdx : Int) (hwf : Spec.Sighash.FieldsWF tx) (hidx : IdxOK tx inIdx)
+    (cls : String) : ¬ (realCtx tx inIdx).Raises cls := by
+  rw [raises_real_iff tx inIdx hwf]
+  unfold IdxOK at hidx
+  omega
 
 /-! ### the two models of `FindAndDelete` coincide -/
 
